@@ -46,6 +46,13 @@ CHECKS = {
         "Trusted: the harness components; identity order as reference. Cycles with positive-but-insufficient delay are excluded (C04 accepts either outcome there).",
         "DESIGN.md section 4, C05",
     ),
+    "C08": (
+        "model_checking",
+        "explicit-state BFS to a fixpoint over all push/pull interleavings on a direct link (states modulo time translation, unlimited-history reference) plus exhaustive product payload form x grid kind x unit pair and all re-publication forms on real Output/Input objects",
+        "History part: every reachable normalised state of a direct link with 1-2 consumers and unit conversion is visited; each pull must return the nearest publication (either neighbour at a mid-point) or be refused outside the needed range, with exact conversion factor, shape and units. Product part: all payload forms x grids x compatible unit pairs (and incompatible/wrongly shaped ones that must be refused) and all memory-sharing re-publications.",
+        "Trusted: reference model; hand-written conversion table for an 8-unit catalogue; rtol 1e-12.",
+        "DESIGN.md section 4, C08",
+    ),
     "C09": (
         "model_checking",
         "explicit-state breadth-first search to a fixpoint over all interleavings of push/pull events on a real Output with 1-4 consumers (direct, behind pass-through, push-based and delay adapters, fan-out behind a shared adapter), states fingerprinted modulo time translation, unlimited-history reference as oracle on every transition",
@@ -66,6 +73,27 @@ CHECKS = {
         "Static slots: every push/pull sequence up to depth 4/5 with all request-time kinds on real slots. Pull-based components: all schedules of compositions with one or two pull-based components are explored, each provider invocation must carry exactly the (delay-shifted) request time of the consumer and the C01 monitors stay green. WeightedSum: all unit combinations x consumer step pairs x listing orders against an arithmetic reference.",
         A_NOTE,
         "DESIGN.md section 4, C20",
+    ),
+    "C11": (
+        "model_checking",
+        "explicit-state BFS to a fixpoint over all interleavings of publications (irregular gaps) and non-decreasing requests on a quarter-hour lattice on the real time interpolation adapters, states modulo time translation, exact-Fraction reference with unlimited history",
+        "All reachable normalised states of NextTime, PreviousTime, LinearTime and StepTime(0,.25,.5,.75,1) behind a real Output are explored (scalar and gridded payloads, two adapters on one output, adapter behind adapter); every answer must equal the mathematical definition, every out-of-range request must be refused, and because the reference never forgets, any effect of buffer eviction on a later answer is a mismatch.",
+        "Trusted: reference definitions in core/refmodels.py; bounded lag window; values depend on the last two gaps.",
+        "DESIGN.md section 4, C11",
+    ),
+    "C12": (
+        "model_checking",
+        "explicit-state BFS to a fixpoint over all interleavings of publications and consumer pulls (every partition of the period on a half-hour lattice) on the real AvgOverTime/SumOverTime adapters, exact-Fraction integral of the reference interpolant as oracle",
+        "All reachable normalised states for Avg/Sum x {linear, step 0,.25,.5,1} x {per_time, absolute} x source units {mm/h, mm, 1}: each pull must equal the exact integral over [previous pull, pull] (divided by the elapsed time for averages), in units of source x time (reduced). Hence totals are partition independent and averages lie within the contributing range.",
+        "Trusted: exact integral in core/refmodels.py; repeated pulls at the same time are outside the statement.",
+        "DESIGN.md section 4, C12",
+    ),
+    "C13": (
+        "model_checking",
+        "explicit-state BFS over all push/pull interleavings on real chains of 1-3 delay adapters (fixpoint for fixed delays, depth-bounded for history-dependent adapters); the time argument observed at the source output and the delivered value are compared with the reference composition of the shift maps",
+        "Every chain of DelayFixed/DelayToPull/DelayToPush (mixed with Scale) from the stated alphabet is driven through all request sequences within the bound; requested time at the source = max(t-d,start) / n-th previous request - extra / min(t,newest), composed along the chain. The scheduler clause is decided by C02's request-time monitor on the same chains inside Composition.run.",
+        "Trusted: reference shift maps; start time = declared time of the source output; depth bounds 6/5/4 (quick) 9/8/7 (thorough) for chains with DelayToPull/DelayToPush.",
+        "DESIGN.md section 4, C13",
     ),
     "C14": (
         "exploration",
